@@ -91,10 +91,10 @@ Theorem signed_rr_reads_back_validated :
     all_bytes wire = true -> (12 <= length wire)%nat ->
     t_error rd = 0 -> NameM.name_eqb (kalg k) (t_alg rd) = true ->
     rfc_time_ok now2 now (t_fudge rd) ->
-    r_pos st = length wire -> r_ctx st = ctx ->
+    r_pos st = length wire -> r_ctx st = ctx -> r_origin st = None ->
     get_rr H out (KR_Key k) rmac now2 multi 3 count (count - 1) st
     = Ok {| r_pos := length out; r_tsig := Some (kname k, rd'); r_ctx := c';
-            r_recs := (3, TSIG, ANY, length wire) :: r_recs st; r_opt := r_opt st |}.
+            r_recs := (3, TSIG, ANY, length wire) :: r_recs st; r_opt := r_opt st; r_origin := None |}.
 Proof. exact signed_rr_reads_back_validated_lemma. Qed.
 Print Assumptions signed_rr_reads_back_validated.
 
@@ -114,7 +114,7 @@ Theorem read_signed_message :
     ((fst fl / 2048) mod 16 =? 5) = false ->
     get_question out (Z.to_nat (fst qd)) 12 = Ok p ->
     get_section H out (KR_Key k) rmac now2 multi 1 (fst an) (Z.to_nat (fst an))
-      {| r_pos := p; r_tsig := None; r_ctx := ctx; r_recs := []; r_opt := false |} = Ok s1 ->
+      {| r_pos := p; r_tsig := None; r_ctx := ctx; r_recs := []; r_opt := false; r_origin := None |} = Ok s1 ->
     get_section H out (KR_Key k) rmac now2 multi 2 (fst au) (Z.to_nat (fst au)) s1 = Ok s2 ->
     1 <= fst ad ->
     get_section_n H out (KR_Key k) rmac now2 multi 3 (fst ad) 0 (Z.to_nat (fst ad - 1)) s2 = Ok s3 ->
@@ -309,8 +309,9 @@ Print Assumptions bad_alg.
 (* at the header of a TSIG record outside ADDITIONAL, or not last, or not class ANY, the reader
    raises BadTSIG (a FormError) ... *)
 Theorem tsig_not_last_is_formerror :
-  forall H w kr rmac now multi section count i st np tp cp lp dp,
+  forall H w kr rmac now multi section count i st np nrel tp cp lp dp,
     get_name w (length w) (r_pos st) = Ok np ->
+    (match r_origin st with Some o => NameM.relativize (fst np) o | None => Ok (fst np) end) = Ok nrel ->
     get_uint w (length w) (snd np) 2 = Ok tp ->
     get_uint w (length w) (snd tp) 2 = Ok cp ->
     get_uint w (length w) (snd cp) 4 = Ok lp ->
@@ -323,8 +324,8 @@ Print Assumptions tsig_not_last_is_formerror.
 
 (* ... hence in every message that is read without error a TSIG record is the last one *)
 Theorem read_ok_tsig_is_last :
-  forall H w kr rmac ctx multi now m i r,
-    read H w kr rmac ctx multi now = Ok m ->
+  forall H origin w kr rmac ctx multi now m i r,
+    read_gen H origin w kr rmac ctx multi now = Ok m ->
     nth_error (m_recs m) i = Some r -> rec_type r = TSIG ->
     i = (length (m_recs m) - 1)%nat /\ rec_section r = 3 /\ rec_class r = ANY.
 Proof. exact tsig_only_last. Qed.
@@ -333,8 +334,8 @@ Print Assumptions read_ok_tsig_is_last.
 (* a message is read successfully only if dns.tsig.validate accepted its TSIG (keyring permitting);
    a message without TSIG extends the running digest of a multi-message exchange by the whole wire *)
 Theorem read_accepts_only_validated :
-  forall H w kr rmac ctx multi now m,
-    read H w kr rmac ctx multi now = Ok m ->
+  forall H origin w kr rmac ctx multi now m,
+    read_gen H origin w kr rmac ctx multi now = Ok m ->
     exists body,
       Forall not_tsig body /\
       ((m_recs m = body /\ m_tsig m = None /\ m_had_tsig m = false
@@ -350,11 +351,11 @@ Print Assumptions read_accepts_only_validated.
    value carry identical authenticated content, or the truncated keyed hash collides on their two
    distinct RFC inputs *)
 Theorem read_tamper_needs_collision :
-  forall H k rmac ctx multi w1 now1 m1 owner1 rd1 w2 now2 m2 owner2 rd2,
+  forall H origin1 origin2 k rmac ctx multi w1 now1 m1 owner1 rd1 w2 now2 m2 owner2 rd2,
     (ctx = None \/ multi = false) ->
     all_bytes w1 = true -> all_bytes w2 = true ->
-    read H w1 (KR_Key k) rmac ctx multi now1 = Ok m1 -> m_tsig m1 = Some (owner1, rd1) ->
-    read H w2 (KR_Key k) rmac ctx multi now2 = Ok m2 -> m_tsig m2 = Some (owner2, rd2) ->
+    read_gen H origin1 w1 (KR_Key k) rmac ctx multi now1 = Ok m1 -> m_tsig m1 = Some (owner1, rd1) ->
+    read_gen H origin2 w2 (KR_Key k) rmac ctx multi now2 = Ok m2 -> m_tsig m2 = Some (owner2, rd2) ->
     t_mac rd1 = t_mac rd2 ->
     exists body1 start1 body2 start2 ad1 ad2 h sz,
       m_recs m1 = body1 ++ [(3, TSIG, ANY, start1)] /\ m_recs m2 = body2 ++ [(3, TSIG, ANY, start2)] /\
@@ -392,10 +393,10 @@ Print Assumptions altered_arcount_changes_authenticated.
 
 (* ---- multi-message exchanges with any subset of envelopes unsigned (RFC 8945 5.3.1) ---- *)
 Theorem read_stream_is_rfc :
-  forall H k rmac now ws ms ctx run,
+  forall H k rmac now origin ws ms ctx run,
     ctx_matches k ctx run ->
     Forall (fun w => all_bytes w = true) ws ->
-    read_stream H ws (KR_Key k) rmac ctx now = map Ok ms ->
+    read_stream_gen H origin ws (KR_Key k) rmac ctx now = map Ok ms ->
     stream_spec H k rmac now run ws ms.
 Proof. exact read_stream_is_rfc_lemma. Qed.
 Print Assumptions read_stream_is_rfc.
@@ -505,10 +506,19 @@ Example ex_read_signed :
   /\ (exists m, read exH ex_signed2 (KR_Key exkey) [] None false 1200 = Ok m /\ m_had_tsig m = true
                 /\ length (m_recs m) = 2%nat)
   /\ (exists s3, get_section_n exH ex_signed2 (KR_Key exkey) [] 1200 false 3 2 0 1
-                   {| r_pos := 19; r_tsig := None; r_ctx := None; r_recs := []; r_opt := false |} = Ok s3
+                   {| r_pos := 19; r_tsig := None; r_ctx := None; r_recs := []; r_opt := false; r_origin := None |} = Ok s3
                  /\ r_pos s3 = length exwire2).
 Proof.
   split; [eexists; vm_compute; reflexivity|].
   split; [eexists; split; [vm_compute; reflexivity|split; reflexivity]|].
   eexists; split; [vm_compute; reflexivity|reflexivity].
 Qed.
+
+(* from_wire(origin=...): the origin does not enter the key lookup or validation - read with the key
+   name itself, an ancestor of it, or an unrelated name as origin, with Key and dict keyrings *)
+Example ex_read_with_origin :
+  (exists m, read_gen exH (Some (kname exkey)) ex_signed2 (KR_Key exkey) [] None false 1200 = Ok m /\ m_had_tsig m = true)
+  /\ (exists m, read_gen exH (Some [[]]) ex_signed2 (KR_Dict [(kname exkey, inl exkey)]) [] None false 1200 = Ok m /\ m_had_tsig m = true)
+  /\ (exists m, read_gen exH (Some [[120]; []]) ex_signed2 (KR_Dict [(kname exkey, inr (ksecret exkey))]) [] None false 1200 = Ok m
+                /\ m_had_tsig m = true).
+Proof. repeat split; eexists; split; vm_compute; reflexivity. Qed.
